@@ -77,7 +77,7 @@ def main():
     det = {}
     for c in checks:
         t0 = time.time()
-        rc, o = sh(f"MUT_TAIL=6 /verif/tools/mutant_run.sh {c} {out}/patch.diff {tier}", timeout=7200)
+        rc, o = sh(f"MUT_TAIL=3000 /verif/tools/mutant_run.sh {c} {out}/patch.diff {tier}", timeout=7200)
         viol = [l for l in o.splitlines() if l.startswith("VIOLATION")]
         sigs = [l.strip()[:240] for l in o.splitlines() if l.strip().startswith("signature=")]
         det[c] = {"tier": tier, "exit": rc, "detected": rc == 1 and bool(viol), "violation_lines": len(viol), "example": (sigs[0] if sigs else ""), "wall_s": round(time.time() - t0)}
